@@ -31,6 +31,9 @@ type Relay struct {
 	mutex     stdsync.RWMutex
 	consumers []subscription
 
+	// cacheMtx serialises the cache writes of concurrent Put calls, which only
+	// hold the read lock of mutex. All other cache accesses hold its write lock.
+	cacheMtx          stdsync.Mutex
 	cache             Cache
 	defaultMsgHandler func(*Envelope) // Handles messages with no subscriber.
 }
@@ -150,7 +153,11 @@ func (p *Relay) Put(e *Envelope) {
 	}
 
 	if !found {
-		if !p.cache.Put(e) {
+		p.cacheMtx.Lock()
+		cached := p.cache.Put(e)
+		p.cacheMtx.Unlock()
+
+		if !cached {
 			p.defaultMsgHandler(e)
 		}
 	}
